@@ -78,4 +78,26 @@ theorem addrOther_other (ss : List Stmt) (v : Value) (ha : v.isAddress = false) 
     addrOther ss v = .diag := by
   simp [addrOther, ha, hn]
 
+/-! ### the per-statement step of `fixAll`: `fixOne` then `fitWidth` -/
+
+/-- one step of the `fixAll` loop: `fix_addresses`, then `fit_operand_width` -/
+def fixFit (ss : List Stmt) (i : Nat) (s : Stmt) : Outcome Stmt :=
+  match fixOne ss i s with | .ok s1 => fitWidth s1 | o => o
+
+theorem fixAll_cons (ss : List Stmt) (i : Nat) (s : Stmt) (rest : List Stmt) :
+    fixAll ss i (s :: rest) =
+      match fixFit ss i s with
+      | .ok s' => (match fixAll ss (i + 1) rest with | .ok r => .ok (s' :: r) | o => o)
+      | .diag => .diag
+      | .internal => .internal
+      | .diverged => .diverged := by
+  rw [fixAll]; rfl
+
+theorem fixFit_ok {ss : List Stmt} {i : Nat} {s s' : Stmt} :
+    fixFit ss i s = .ok s' ↔ ∃ s1, fixOne ss i s = .ok s1 ∧ fitWidth s1 = .ok s' := by
+  unfold fixFit
+  cases h : fixOne ss i s with
+  | ok s1 => simp
+  | _ => simp
+
 end CoCo.Asm
